@@ -89,7 +89,7 @@ func main() {
 		ctx := newCtx("dump", *tier, *repo, *verif, seed)
 		ctx.NoEvidence = true
 		cfgs := []buildConfig{hostConfig()}
-		if *dump == "funcs" {
+		if *dump == "funcs" || *dump == "types" {
 			cfgs = append(cfgs, thoroughConfigs()...)
 		}
 		for _, bc := range cfgs {
